@@ -184,6 +184,12 @@ func runCheck(id, tier string, seed int, writeEvidence bool) (int, []violation) 
 			v.Solver = modelFor(rr.g, a.Bad, work, timeout)
 			viols = append(viols, v)
 		default:
+			// undecided is not refuted: retry the undecided instances with other seeds and a longer limit before
+			// reporting (solver incompleteness must not raise an alarm on a tree where the obligation holds)
+			if retryUndecided(rr, e, timeout, seed) {
+				discharged++
+				break
+			}
 			v := violation{Obligation: e, Reason: "undecided", Detail: a.Bad.Info + " (solvers: " + strings.SplitN(a.Bad.Model, "\n", 2)[0] + ")", SMTFile: a.Bad.File}
 			viols = append(viols, v)
 		}
@@ -405,4 +411,43 @@ func cmdClaim(args []string) int {
 	os.WriteFile(filepath.Join(verifDir, "obligations", *id+".expected"), []byte(strings.Join(names, "\n")+"\n"), 0o644)
 	fmt.Printf("claimed %d obligations for %s (%d not claimed)\n", len(names), *id, skipped)
 	return 0
+}
+
+// retryUndecided re-runs the undecided instances of obligation name with two more seeds and three times the
+// time limit. Returns true if every instance is now discharged (updates the aggregate).
+func retryUndecided(rr *runResult, name string, timeoutS, seed int) bool {
+	var insts []*Obligation
+	for _, o := range rr.allObls {
+		if o.Name == name && !o.Cover && o.Result != "unsat" {
+			if o.Result == "sat" || o.File == "" {
+				return false
+			}
+			insts = append(insts, o)
+		}
+	}
+	if len(insts) == 0 || len(insts) > 24 {
+		return false
+	}
+	for _, o := range insts {
+		ok := false
+		for try := 1; try <= 2 && !ok; try++ {
+			r := race(o.File, timeoutS*3, seed+100*try, "")
+			if r.res == "unsat" {
+				o.Result, o.Solver, o.Ms = "unsat", r.solver+"(retry)", o.Ms+r.ms
+				ok = true
+			} else if r.res == "sat" {
+				o.Result = "sat"
+				return false
+			}
+		}
+		if !ok {
+			return false
+		}
+	}
+	if a := rr.aggs[name]; a != nil {
+		a.Result = "discharged"
+		a.Backend += ",retry"
+		a.Bad = nil
+	}
+	return true
 }
